@@ -2857,7 +2857,9 @@ func (lv *leafValue) lastUpdateBetween(hLog appendable.Appendable, initialTs, fi
 	hOff := lv.hOff
 	skippedUpdates := uint64(0)
 
-	for i := uint64(0); i < lv.hCount; i++ {
+	// history chunks are walked until every flushed update has been seen: each
+	// chunk holds one or more of them, the link of the oldest chunk leads nowhere
+	for i := uint64(0); i < lv.hCount && skippedUpdates < lv.hCount; i++ {
 		r := appendable.NewReaderFrom(hLog, hOff, DefaultMaxNodeSize)
 
 		hc, err := r.ReadUint32()
